@@ -24,7 +24,8 @@ Inductive tres (S : Type) :=
 Arguments TOk {S}. Arguments TErr {S}.
 
 (* the fixed half of a stream's state: callTokenData / resolvedCall *)
-Record callinfo := { ci_id : bytes; ci_method : bytes; ci_schema : bytes }.
+Record callinfo := { ci_id : bytes; ci_method : bytes; ci_schema : bytes;
+                     ci_inschema : bytes }.   (* runtime input schema of a method that registers none; [] = absent *)
 
 (* callStateCache: bounded LRU, front = most recently used; max = 0 disables it *)
 Definition cache := list (bytes * callinfo).
@@ -85,9 +86,14 @@ Arguments rs_class {token}. Arguments rs_schema {token}. Arguments rs_frames {to
 Arguments rs_tok {token}. Arguments rs_sentinel {token}.
 
 Section Http.
-  Context {state inp raw sbytes token ctoken : Type}.
+  Context {state inp raw mid sbytes token ctoken : Type}.
   Variable step : state -> inp -> tres state.
-  Variable cast_h : raw -> inp + frame.     (* handleStreamExchange: cast against the REGISTERED input schema *)
+  (* handleStreamExchange casts in two places: against the REGISTERED input schema
+     before any token is opened (nothing happens there for a method that registers
+     none), and, once the call is resolved, against the runtime input schema the
+     call token carries for such a method *)
+  Variable cast1 : raw -> mid + frame.
+  Variable cast2 : callinfo -> mid -> inp + frame.
   (* oracles: gob state codec, XChaCha20-Poly1305 envelope of both token kinds *)
   Variable ser : state -> sbytes.
   Variable deser : sbytes -> option state.
@@ -158,16 +164,20 @@ Section Http.
 
   (* ---- exchange *)
   Definition exchange_req (c : cache) (tok : token) (ct : ctoken) (r : raw) : resp token * cache :=
-    match cast_h r with
+    match cast1 r with
     | inr e => (refused e, c)
-    | inl i =>
+    | inl m =>
         match open_request c tok ct with
         | (None, c') => (refused refusal, c')
         | (Some (cid, s, info), c') =>
-            match step s i with
-            | TErr e => ({| rs_class := RHandlerErr; rs_schema := schema_of info; rs_frames := [e]; rs_tok := None; rs_sentinel := false |}, c')
-            | TOk s' outs _ => ({| rs_class := RNormal; rs_schema := schema_of info; rs_frames := outs;
-                                   rs_tok := Some (seal_cur (cid, ser s')); rs_sentinel := false |}, c')
+            match cast2 info m with
+            | inr e => (refused e, c')
+            | inl i =>
+                match step s i with
+                | TErr e => ({| rs_class := RHandlerErr; rs_schema := schema_of info; rs_frames := [e]; rs_tok := None; rs_sentinel := false |}, c')
+                | TOk s' outs _ => ({| rs_class := RNormal; rs_schema := schema_of info; rs_frames := outs;
+                                       rs_tok := Some (seal_cur (cid, ser s')); rs_sentinel := false |}, c')
+                end
             end
         end
     end.
@@ -185,8 +195,8 @@ Section Http.
               end
     end.
 
-  Definition http_exch (cid schema : bytes) (caches : nat -> cache) (s0 : state) (pre : list frame) (ins : list raw) : list (resp token) :=
-    let info := {| ci_id := cid; ci_method := mth; ci_schema := schema |} in
+  Definition http_exch (info : callinfo) (schema : bytes) (caches : nat -> cache) (s0 : state) (pre : list frame) (ins : list raw) : list (resp token) :=
+    let cid := ci_id info in
     let tok := seal_cur (cid, ser s0) in
     let caches' := upd caches (route 0) (cput cmax cid info (caches (route 0))) in
     {| rs_class := RNormal; rs_schema := schema; rs_frames := pre; rs_tok := Some tok; rs_sentinel := true |}
@@ -216,8 +226,8 @@ Section Http.
               end
     end.
 
-  Definition http_prod (cid schema : bytes) (caches : nat -> cache) (s0 : state) (pre : list frame) (ticks : list inp) : list (resp token) :=
-    let info := {| ci_id := cid; ci_method := mth; ci_schema := schema |} in
+  Definition http_prod (info : callinfo) (schema : bytes) (caches : nat -> cache) (s0 : state) (pre : list frame) (ticks : list inp) : list (resp token) :=
+    let cid := ci_id info in
     let '(fs, stop, rest) := produce s0 ticks 0 pre in
     let r0 := token_resp schema cid fs stop in
     let caches' := match stop with
@@ -229,6 +239,11 @@ Section Http.
           | None => []
           end.
 End Http.
+
+(* the two HTTP casts of one exchange input, composed *)
+Definition cast_http {raw mid inp : Type} (cast1 : raw -> mid + frame) (cast2 : callinfo -> mid -> inp + frame)
+  (info : callinfo) (r : raw) : inp + frame :=
+  match cast1 r with inr e => inr e | inl m => cast2 info m end.
 
 (* the client view of a list of HTTP responses, for any projection [vw] of one
    batch under its stream's schema: every response's batches in order, the
@@ -327,11 +342,18 @@ Definition zsum (l : list Z) : Z := fold_right Z.add 0%Z l.
 Definition cast_exc : frame := exc c11_exc_cast_name c11_err_cast_name.
 Definition cast_pipe (r : coltype * list Z) : Z + frame :=
   match fst r with CBadName => inr cast_exc | _ => inl (zsum (snd r)) end.
-(* HTTP casts only against the registered input schema, which a dynamic method
-   does not have: its state then sees the batch as sent (the scripted state
-   reads -999 off a column that is not int64) *)
-Definition cast_http (k : mkind) (r : coltype * list Z) : Z + frame :=
-  if is_dynamic k then inl (match fst r with CI32 => (-999)%Z | _ => zsum (snd r) end) else cast_pipe r.
+(* HTTP, first cast: against the registered input schema {x:int64}, which a
+   dynamic method does not have (its batch passes as sent) *)
+Definition cast_reg (k : mkind) (r : coltype * list Z) : (coltype * list Z) + frame :=
+  if is_dynamic k then inl r
+  else match cast_pipe r with inl _ => inl (CI64, snd r) | inr e => inr e end.
+(* what the scripted state reads off a batch handed over without a cast: -999
+   when the column is not int64 *)
+Definition deliver (m : coltype * list Z) : Z := match fst m with CI32 => (-999)%Z | _ => zsum (snd m) end.
+(* HTTP, second cast: against the runtime input schema carried by the call token *)
+Definition cast_rt (info : callinfo) (m : coltype * list Z) : Z + frame :=
+  match ci_inschema info with [] => inl (deliver m) | _ => cast_pipe m end.
+Definition in_schema : bytes := str "x:int64".
 
 Definition hdr (i : input) : option Z := if has_header (i_kind i) then i_header i else None.
 Definition adm (i : input) : list logmsg := filter (admitted (i_loglevel i)) (i_initlogs i).
@@ -365,17 +387,24 @@ Definition cid0 : bytes := str "call".
 Definition route_of (l : list nat) (k : nat) : nat := match l with [] => O | _ => nth (Nat.modulo k (length l)) l O end.
 Definition refusal0 : frame := exc exc_runtime_error [].
 
-Definition http_resps (i : input) : list (resp (bytes * sstate)) :=
+(* [legacy] = the code before the repair: the call token did not carry the runtime
+   input schema, so a dynamic exchange stream was never cast over HTTP *)
+Definition call_info (legacy : bool) (k : mkind) : callinfo :=
+  {| ci_id := cid0; ci_method := method_name k; ci_schema := out_schema;
+     ci_inschema := if negb legacy && is_dynamic k && negb (is_producer k) then in_schema else [] |}.
+
+Definition http_resps_gen (legacy : bool) (i : input) : list (resp (bytes * sstate)) :=
   let k := i_kind i in
   if is_producer k
   then http_prod (sstep true) (fun s => s) (@Some sstate) (fun x => x) (@Some _) (fun x => x) (@Some callinfo)
                  (i_L i) (fun _ => i_capevery i) (i_cmax i)
                  (route_of (i_route i)) (method_name k) ci_schema refusal0
-                 cid0 out_schema (fun _ => []) (i_turns i) (pre [] i) (ticks i)
-  else http_exch (sstep false) (cast_http k) (fun s => s) (@Some sstate) (fun x => x) (@Some _) (fun x => x) (@Some callinfo)
+                 (call_info legacy k) out_schema (fun _ => []) (i_turns i) (pre [] i) (ticks i)
+  else http_exch (sstep false) (cast_reg k) cast_rt (fun s => s) (@Some sstate) (fun x => x) (@Some _) (fun x => x) (@Some callinfo)
                  (i_cmax i)
                  (route_of (i_route i)) (method_name k) ci_schema refusal0
-                 cid0 out_schema (fun _ => []) (i_turns i) (pre [] i) (raws i).
+                 (call_info legacy k) out_schema (fun _ => []) (i_turns i) (pre [] i) (raws i).
+Definition http_resps := http_resps_gen false.
 
 Definition render {T} (r : resp T) : hresp :=
   let tokf := match rs_tok r with Some _ => if rs_sentinel r then [FToken] else [] | None => [] end in
@@ -387,18 +416,20 @@ Definition render {T} (r : resp T) : hresp :=
 Definition with_header (hs : list stream) (r : hresp) : hresp :=
   {| h_status := h_status r; h_errhdr := h_errhdr r; h_streams := hs ++ h_streams r; h_tok := h_tok r |}.
 
-Definition http_obs (i : input) : list hresp :=
+Definition http_obs_gen (legacy : bool) (i : input) : list hresp :=
   match i_initfail i with
   | Some f => [ {| h_status := 200%Z; h_errhdr := true;
                    h_streams := [ {| st_schema := []; st_frames := [init_exc [] f] |} ]; h_tok := false |} ]
   | None =>
-      match map render (http_resps i) with
+      match map render (http_resps_gen legacy i) with
       | [] => []
       | r0 :: rest => with_header (hdr_streams i) r0 :: rest
       end
   end.
 
+Definition http_obs := http_obs_gen false.
 Definition model (i : input) : obs := {| o_pipe := pipe_obs i; o_http := http_obs i |}.
+Definition legacy_model (i : input) : obs := {| o_pipe := pipe_obs i; o_http := http_obs_gen true i |}.
 
 Definition hresp_eqb (a b : hresp) : bool :=
   Z.eqb (h_status a) (h_status b) && Bool.eqb (h_errhdr a) (h_errhdr b)
@@ -455,9 +486,9 @@ Definition vframe_eqb (a b : vframe) : bool :=
 Definition view_eqb (a b : view) : bool :=
   opt_eqb (list_eqb vframe_eqb) (v_header a) (v_header b) && list_eqb vframe_eqb (v_body a) (v_body b).
 
-(* the HTTP path casts the input like the pipe does: the method has a registered
-   input schema (static exchange), takes no input (producer), or the input
-   already has the declared schema *)
+(* where the code BEFORE the repair already cast like the pipe: the method has a
+   registered input schema (static exchange), takes no input (producer), or the
+   input already has the declared schema *)
 Definition cast_safe (i : input) : bool :=
   negb (is_dynamic (i_kind i)) || is_producer (i_kind i) || match i_col i with CI64 => true | _ => false end.
 
